@@ -234,6 +234,25 @@ def run(chk):
         w = fx.fn1("Opm::Action::Result::" + fnname)
         if not any(x["k"] == "MCall" and x.get("m") == fnname and (x.get("cls") or "").endswith("Result::Impl") for x in walk(w["body"])):
             chk.violation(r_logic, fnname + ":fwd", "Result::%s no longer forwards to Impl::%s" % (fnname, fnname), w["file"], w["l"])
+    # "false sub-conditions contribute no set": a cleared / empty match must be NO set, never an empty-but-present set, because
+    # union and intersection treat a present set as an operand (true-scalar OR false-well-comparison would otherwise carry {})
+    mimpl = [f for f in fx.fns if f["file"].endswith("ActionResult.cpp") and (f.get("cls") or "").endswith("MatchingEntities::Impl") and f.get("body")]
+    clr = [f for f in mimpl if f["n"] == "clear"]
+    if len(clr) != 1:
+        raise core.AnalysisBroken("Result::MatchingEntities::Impl::clear not found")
+    txt = show(clr[0]["body"])
+    empties = [x for x in walk(clr[0]["body"]) if x["k"] in ("MCall", "Call") and meth(x)[0] == "clear"]
+    resets = [x for x in walk(clr[0]["body"]) if (x["k"] in ("MCall", "Call") and meth(x)[0] == "reset") or "nullopt" in show(x)]
+    chk.instance(r_logic, "noset:clear", sample=dict(body=txt[:120], empties_in_place=len(empties), resets=bool(resets)))
+    if empties or not resets:
+        chk.violation(r_logic, "noset:clear", "MatchingEntities::Impl::clear() empties the well set but keeps it present: a false sub-condition then still takes part in later unions/intersections as an empty set (true-scalar OR false-well-comparison yields {} and a following AND matches no wells)", clr[0]["file"], clr[0]["l"])
+    for f in mimpl:
+        if f["n"] == "addWells" and len(f.get("params", [])) == 1:
+            first = stmt_list(f["body"])[0] if stmt_list(f["body"]) else None
+            guarded = bool(first is not None and first["k"] == "If" and meth(strip(first["cond"]))[0] == "empty" and any(x["k"] == "Return" for x in walk(first["then"])))
+            chk.instance(r_logic, "noset:addWells", sample=dict(returns_early_on_empty_input=guarded))
+            if not guarded:
+                chk.violation(r_logic, "noset:addWells", "MatchingEntities::Impl::addWells creates the well set even for an empty list of wells: a well comparison that holds for no well (a false sub-condition) then carries an empty-but-present set", f["file"], f["l"])
     for f in fx.fns:
         if f["file"].endswith("ActionResult.cpp") and f["n"] in ("makeUnion", "makeIntersection") and len(f["params"]) == 1:
             inner = [meth(x)[0] for x in walk(f["body"]) if meth(x)[0] in ("makeUnion", "makeIntersection")]
